@@ -356,7 +356,7 @@ int main(int argc, const char** argv)
   trace = stderr;
   if ((e = getenv("C18_TRACE")) != NULL) trace = fopen(e, "w");
   if (trace == NULL) return 91;
-  setvbuf(trace, NULL, _IOFBF, 1 << 16);
+  setvbuf(trace, NULL, _IOLBF, 1 << 12);   // line buffered: the trace must survive a crash of the code under test
   rng = (e = getenv("C18_SEED")) ? strtoull(e, NULL, 10) : 1;
   mode = (e = getenv("C18_MODE")) ? atoi(e) : 0;
   if ((e = getenv("C18_MAXSTEPS")) != NULL) max_steps = atol(e);
